@@ -66,6 +66,10 @@ fn run_ops(pb: &mut PathBuilder, mut l: &[i128]) {
                 }
                 l = r;
             }
+            [11, r @ ..] => {
+                *pb = PathBuilder::default();
+                l = r;
+            }
             _ => return,
         }
     }
